@@ -41,6 +41,20 @@ CHECKS = {
         "design_ref": "DESIGN.md section 4, C03",
         "level_note": E4_NOTE + " Axioms: in_unit is value-preserving (C04); unit operators are the group operations (C02). Not decided: complex roots of negative magnitudes, float overflow.",
     },
+    "C05": {
+        "engine": "E1+E4+E5",
+        "technique": "abstract interpretation of the table stores in equate/translate (orientation and reciprocity as normal-form identities), def-use rules on convert (affine, magnitude-independent, requested unit), shape rules on the path search, declared-data table from E5",
+        "level_text": "Decides the structural half of the property for all inputs: stored directions are mutual inverses and oriented as [from][to] = v(from)/v(to); for fixed units convert is m -> A*m + B with A, B independent of m and returns the requested unit; the search reads both tables in one direction and orders hops; declared ratios are positive and offset scales are leaves (so B = 0 between offset-free units). Numerical agreement of routes is NOT decided (needs C04 and C09).",
+        "design_ref": "DESIGN.md section 4, C05",
+        "level_note": E4_NOTE + " Not decided: round-trip / route-independence numerics; exponent handling of multi-hop paths between powers of units (planner heuristics).",
+    },
+    "C18": {
+        "engine": "E1+E4+E5",
+        "technique": "abstract interpretation of LogarithmicUnit.level and Level.quantify to normal forms with ln/exp heads, compared with the logarithmic definition; units-of-measure typing of the log argument; structural rules; declared bases from E5",
+        "level_text": "level() normalises to (k/p)*log_B(val(q)/val(ref)) and quantify() to B**(L*p/k)*ref for symbolic base, prefix, power ratio, reference and units, so the two directions are mutually inverse and the level is increasing for B > 1 (all declared bases are). The log argument is shown dimensionless, the reference unprefixed, k in {1,2} by membership.",
+        "design_ref": "DESIGN.md section 4, C18",
+        "level_note": E4_NOTE + " Axiom: in_unit value-preserving (C04). Not decided: floating-point rounding.",
+    },
     "C06": {
         "engine": "E1+E4",
         "technique": "abstract interpretation: physical-value normal forms of + - * / ** and of the magnitudes compared in __eq__/__lt__ (under their path conditions), relative to the in_unit axiom; layering rule on prefix arithmetic",
